@@ -237,6 +237,8 @@ def run(tier):
 
     ck.rule("E7.permutation-applied", "SymbolicAssembler functions that fetch a mesh permutation of one of their spaces (get_perm() / get_inv_perm() of the space's mesh): decision table over the emptiness tests of these permutations - for every combination (empty / not empty) every path to a return yields a graph that depends on every fetched permutation that is not empty in that combination (dependence over-approximated through calls, so only the ABSENCE is a verdict), and no permutation that is empty in that combination is handed to a call as an operand (an empty Permutation has no position array); otherwise, for exactly that combination of permuted / unpermuted meshes, the sparsity pattern is composed in the wrong cell numbering and misses couplings that the numeric assembly fills", 4)
     ck.rule("E7.setter-history-free", "parameter setters (set_*) of the three Burgers assembly routes (classic BurgersAssembler, BurgersAssemblyJobBase, VoxelBurgersAssembler incl. its generic back-end): the value stored into a member depends only on the arguments of THIS call, i.e. every read of a member the setter stores into is preceded, on every path through the call, by an assignment to that member in the same call (directly or through a sibling setter that assigns it on all its paths); a compound assignment or `m = max(m, new)` makes the state depend on the call history, so that the routes - which are documented to produce the same result for the same input - disagree from the second call on (the classic assembler overwrites)", 8)
+    ck.rule("E7.term-gating-agreement", "Burgers routes (classic assemble_matrix / assemble_scalar_matrix / assemble_vector, the job task base, the voxel host loops): a bool flag that gates a term is a predicate of the operator's coefficients (nu, beta, frechet_beta, theta, sd_delta, sd_v_norm); flags over the SAME set of coefficients are the same predicate in every route (normal form: const locals / constructor-initialised members resolved, casts and `this->` / parameter-struct prefixes dropped) - the routes are documented to produce the same result for the same input, so a route whose predicate differs (`theta > 0` instead of `abs(theta) > 0`) drops or adds the term for exactly the coefficients on which the predicates differ (a negative reaction coefficient)", 21)
+    ck.rule("E1.wrapper-forwards", "convenience wrappers of kernel/assembly/domain_assembler_helpers.hpp (assemble_* / integrate_*): every named parameter of the wrapper reaches the job it constructs or a call on the job / the domain assembler (through const locals; uses inside assertions do not count), and a parameter handed on as a plain argument is not received by a constructor parameter that carries the name of ANOTHER wrapper parameter; a parameter that is not forwarded is silently replaced by the job constructor's default (alpha = 1)", 37)
     ck.rule("E7.voxel-point-dependence", "voxel assembly kernels (poisson / defo / burgers matrix and defect, host-generic path): in one step of the cubature loop every datum entering the accumulation is computed at the CURRENT cubature point: the determinant factor is det of the Jacobian from calc_jac_mat(cub_pt[k]), the transformed gradients come from eval_ref_gradients(cub_pt[k]) and trans_gradients with the inverse of that same Jacobian, values from eval_ref_values(cub_pt[k]); a Jacobian evaluated outside the loop (e.g. at the cell centre) is exact on parallelogram cells only, the Standard trafo is multilinear", 6)
     ck.rule("E7.voxel-weight-once", "voxel assembly kernels: every term accumulated into the local matrix/vector in the cubature loop carries exactly one factor det(J(cub_pt[k])) and exactly one factor cub_wg[k] of the same loop index k", 6)
 
@@ -280,6 +282,11 @@ def run(tier):
         check_caller_kernel_gating(ck, named[2][1], "voxel", tier)
     check_element_index_kind(ck, tier)
     check_setters(ck, tier)
+    check_wrappers(ck, tier)
+    if len(named) == 3:
+        check_gating_agreement(ck, [facts_b, named[2][1]])
+    else:
+        check_gating_agreement(ck, [facts_b])
     check_outputs_cleared(ck, facts_b, tier)
     check_outputs_cleared(ck, facts, tier)
     try:
@@ -2504,6 +2511,178 @@ def check_element_index_kind(ck, tier):
             definite = ok is False
             (problems if definite else unknown).append(msg)
         _finish(ck, "E2.element-index-kind", key, problems, unknown, "%d stores into the reordered element list take their values from the previous list (position -> mesh element translation kept)" % len(sinks), f.file, f.line)
+
+
+# -------------------------------------------------------------------------------------------------
+# sibling routes gate each term with the same predicate of the same coefficients; wrappers forward every parameter
+# -------------------------------------------------------------------------------------------------
+
+def check_gating_agreement(ck, facts_list):
+    rule = "E7.term-gating-agreement"
+    groups = {}     # coefficient set -> [(route key, flag name, predicate text, fn, line)]
+    for facts in facts_list:
+        seen = set()
+        for f in sorted(facts.functions, key=lambda f: f.full):
+            if f.tk == "pattern" or f.body is None:
+                continue
+            if not (("burgers_assembler.hpp" in f.file or "burgers_assembly_job.hpp" in f.file or "/voxel_assembly/arch/burgers_assembler.cpp" in f.file)):
+                continue
+            route = strip_targs(f.qn).replace("FEAT::Assembly::", "").replace("FEAT::VoxelAssembly::Kernel::", "voxel/")
+            if route in seen:
+                continue
+            G = _RGuards(f)
+            defs = []
+            for n in f.nodes():
+                if n.get("k") == "Var" and n.get("init") is not None and "bool" in f.type(n.get("t")):
+                    defs.append((n.get("n"), n["init"], n.get("l")))
+            minit = {}
+            for ini in f.d.get("inits") or []:
+                if ini.get("member") and ini.get("init") is not None:
+                    minit[str(ini["member"])] = ini["init"]
+            for nm, init in minit.items():
+                defs.append((nm, init, f.line))
+            got = False
+
+            def pred_norm(n, depth=0):
+                """predicate text in normal form: const locals resolved, `a < b` written `b > a`, conjunctions / disjunctions sorted"""
+                n = unwrap_init(n)
+                while isinstance(n, dict) and n.get("k") in ("Cast", "Paren") and n.get("e") is not None:
+                    n = n["e"]
+                if not isinstance(n, dict):
+                    return "?"
+                if n.get("k") == "Ref" and n.get("d") in G.all_inits and depth < 8:
+                    return pred_norm(G.all_inits[n["d"]], depth + 1)
+                if n.get("k") == "Bin" and n.get("op") in ("&&", "||"):
+                    parts = []
+                    for side in (n["lhs"], n["rhs"]):
+                        t = pred_norm(side, depth + 1)
+                        parts += t[1:-1].split(" %s " % n["op"]) if (t.startswith("(") and (" %s " % n["op"]) in t and side.get("k") == "Bin" and side.get("op") == n["op"]) else [t]
+                    return "(" + (" %s " % n["op"]).join(sorted(parts)) + ")"
+                if n.get("k") == "Bin" and n.get("op") in ("<", "<=", ">", ">=", "==", "!="):
+                    l, r, op = G.resolve(n["lhs"]), G.resolve(n["rhs"]), n["op"]
+                    if op in ("<", "<="):
+                        l, r, op = r, l, {"<": ">", "<=": ">="}[op]
+                    elif op in ("==", "!=") and r < l:
+                        l, r = r, l
+                    return "(%s %s %s)" % (l, op, r)
+                if n.get("k") == "Un" and n.get("op") == "!":
+                    return "!" + pred_norm(n.get("e"), depth + 1)
+                return G.resolve(n)
+            for nm, init, line in defs:
+                txt = pred_norm(init)
+                if not re.search(r"[<>]", txt):
+                    continue
+                # members initialised by the same constructor (tol_eps) are replaced by their initialiser, one level
+                for m2, i2 in minit.items():
+                    if m2 != nm and re.search(r"(?<![\w.])%s(?![\w(])" % re.escape(m2), txt):
+                        t2 = pred_norm(i2)
+                        if not re.search(r"[<>]", t2):
+                            txt = re.sub(r"(?<![\w.])%s(?![\w(])" % re.escape(m2), t2, txt)
+                txt = re.sub(r"\b\w+\.(?=[A-Za-z_])", "", txt)        # parameter-struct prefixes (burgers_params.beta)
+                coeffs = tuple(sorted(set(re.findall(r"[A-Za-z_]\w*(?![\w(])", txt))))
+                if not coeffs:
+                    continue
+                groups.setdefault(coeffs, []).append((route, nm, txt, f, line))
+                got = True
+            if got:
+                seen.add(route)
+    for coeffs, items in sorted(groups.items()):
+        # one predicate per (route, text); flags derived from flags resolve to the same text
+        per_route = {}
+        for route, nm, txt, f, line in items:
+            per_route.setdefault(route, {}).setdefault(txt, (nm, f, line))
+        counts = {}
+        for route, texts in per_route.items():
+            for txt in texts:
+                counts[txt] = counts.get(txt, 0) + 1
+        best = max(counts.values())
+        major = sorted(t for t, c in counts.items() if c == best)
+        for route, texts in sorted(per_route.items()):
+            for txt, (nm, f, line) in sorted(texts.items()):
+                key = "%s/%s" % (route, ",".join(coeffs))
+                if len(per_route) == 1:
+                    ck.ob(rule, key, True, "%s = %s (no sibling route gates a term on these coefficients)" % (nm, txt), f.file, line, trivial=True)
+                    continue
+                if len(major) > 1 and len(counts) > 1:
+                    ck.incomplete(rule, "%s: the routes disagree on the predicate over (%s) without a majority: %s" % (key, ",".join(coeffs), sorted(counts)))
+                    continue
+                ok = txt == major[0]
+                simple = r"^\(?(\(?(abs\()?[\w.]+\)? (>|>=|==|!=) [\w.()]+\)?( && | \|\| )?)+\)?$"
+                if not ok and not (re.match(simple, txt) and re.match(simple, major[0])):
+                    # differently SHAPED predicates (negations, helper calls) may still be equivalent: not a verdict
+                    ck.incomplete(rule, "%s: %s = %s is spelled differently from the sibling routes' %s; equivalence not decided" % (key, nm, txt, major[0]))
+                    continue
+                ck.ob(rule, key, ok, "%s = %s, but %d of the %d sibling routes gate the same term with %s: for the coefficients on which the two predicates differ this route drops / adds the term" % (
+                    nm, txt, best, len(per_route), major[0]) if not ok else "%s = %s, the same predicate in all %d routes" % (nm, txt, len(per_route)), f.file, line)
+
+
+def check_wrappers(ck, tier):
+    rule = "E1.wrapper-forwards"
+    try:
+        facts = featlib.extract("tu/c16_helpers.cpp", files=F("kernel/assembly/domain_assembler_helpers.hpp"))
+    except (featlib.AnalysisBroken, OSError) as e:
+        ck.incomplete(rule, "driver tu/c16_helpers.cpp: %s" % e)
+        return
+    ck.tu(facts)
+    for e in facts.errors_outside_repo():
+        ck.incomplete(rule, "driver tu/c16_helpers.cpp no longer matches the API: %s:%d %s" % (e["file"], e["line"], e["msg"]))
+    for e in facts.errors_in_repo():
+        ck.ob(rule, "E0/%s/%s" % (rel(e["file"]), re.sub(r"\d+", "N", e["msg"])[:80]), False, "front-end error %s:%d %s" % (rel(e["file"]), e["line"], e["msg"]), e["file"], e["line"])
+    by_decl = {g.d.get("decl"): g for g in facts.functions if g.tk != "pattern" and g.body is not None and g.d.get("decl") is not None}
+    seen = set()
+    for f in sorted(facts.functions, key=lambda f: f.full):
+        if f.tk == "pattern" or f.body is None or f.cls or not f.qn.startswith("FEAT::Assembly::") or f.name in seen or f.name.startswith("_"):
+            continue
+        seen.add(f.name)
+        env = norm.DefEnv(f)
+        pds = {p["d"]: p["n"] for p in f.params if p.get("n")}
+
+        def params_in(x, depth=0):
+            out = set()
+            for y in walk(x or {}):
+                if y.get("k") == "Ref" and y.get("d") in pds:
+                    out.add(y["d"])
+                elif y.get("k") == "Ref" and y.get("dk") == "local" and depth < 6 and env.single_def(y.get("d")) is not None:
+                    out |= params_in(env.single_def(y["d"]), depth + 1)
+            return out
+        forwarded = set()
+        slot_problems = {}
+        for n in f.nodes():
+            if not featlib.is_call(n) or (n.get("callee") or "") == "FEAT::assertion":
+                continue
+            if any(n is y for a in f.nodes() if featlib.is_call(a) and (a.get("callee") or "") == "FEAT::assertion" for y in walk(a)):
+                continue      # a call inside an assertion
+            for a in n.get("a") or []:
+                forwarded |= params_in(a)
+            if n.get("obj") is not None:
+                forwarded |= params_in(n["obj"])
+            # helper of the wrappers (same header): its own parameters are judged there, the call is a use
+            # slot check: a plain parameter argument received under the name of another wrapper parameter
+            pn = n.get("pn") or []
+            if n.get("k") in ("Construct", "TempObj") and len(pn) == len(n.get("a") or []):
+                for a, cp in zip(n["a"], pn):
+                    a0 = env.alias(a)
+                    if a0 is not None and a0.get("k") == "Ref" and a0.get("d") in pds:
+                        mine, theirs = pds[a0["d"]].strip("_"), (cp or "").strip("_")
+                        others = {v.strip("_") for d2, v in pds.items() if d2 != a0["d"]}
+                        if theirs and theirs != mine and theirs in others:
+                            slot_problems[a0["d"]] = "parameter `%s` is handed to the constructor parameter `%s` of %s, which carries the name of another parameter of the wrapper (arguments exchanged)" % (
+                                pds[a0["d"]], cp, (n.get("callee") or "?").rsplit("::", 1)[-1])
+        asserted = set()
+        for n in f.nodes():
+            if featlib.is_call(n) and (n.get("callee") or "") == "FEAT::assertion":
+                asserted |= params_in(n)
+        for p in f.params:
+            if not p.get("n"):
+                continue
+            key = "%s/%s" % (f.name, p["n"])
+            problems = []
+            if p["d"] not in forwarded:
+                problems.append("parameter `%s` does not reach the job / assembler call%s: the job is built without it (its constructor's default or a constant takes its place)" % (
+                    p["n"], " (it is only used in an assertion)" if p["d"] in asserted else ""))
+            if p["d"] in slot_problems:
+                problems.append(slot_problems[p["d"]])
+            ck.ob(rule, key, not problems, "; ".join(problems) if problems else "forwarded", f.file, f.line)
 
 
 # -------------------------------------------------------------------------------------------------
